@@ -1083,6 +1083,11 @@ class ConfigInformation:
         if run_mode == RunMode.NORMAL:
             other = experiment.CURRENT.submit(self.job)
             if other:
+                # This configuration stands for the job that was already
+                # submitted (e.g. when used as a parameter of another task)
+                self.job = other
+                self.task = self.pyobject
+
                 # Just returns the other task
                 return other.config.__xpm__._taskoutput
         else:
